@@ -528,7 +528,11 @@ func (e *Engine) Generate(r *core.Rand, prop string, tier string) core.Trace {
 	}
 	// drawn last, so that every other choice of the run is what it was before
 	// this tier existed: one C20 run in sixteen goes through the real binary
-	if prop == "C20" && t.Read == nil && r.Chance(1, 16) {
+	every := 16
+	if tier == "thorough" {
+		every = 200 // a child process costs as much as a hundred in-process runs
+	}
+	if prop == "C20" && t.Read == nil && r.Chance(1, every) {
 		t.Child, t.Tty = true, true
 	}
 	return t
